@@ -30,19 +30,68 @@ from ..util import body_walk, src
 P = "fickling.fickle.Pickled"
 
 
+_PT = {o.name: o for o in pickletools.opcodes}
+
+
 class Tok:
-    def __init__(self, op: str, arg: Any = None, cls: str = ""):
+    def __init__(self, op: str, arg: Any = None, cls: str = "", proto: Optional[int] = None):
         self.op, self.arg, self.cls = op, arg, cls
+        self.proto = proto if proto is not None else (_PT[op].proto if op in _PT else None)
+
+    const_proto_assumed = 1
+    const_proto_read = False
+
+    def sa_attr(self, name: str):
+        """what the helpers may read off an opcode object: .arg, .name, .info.{proto,name}"""
+        if name == "arg":
+            return self.arg
+        if name == "name":
+            if self.op in ("BODY", "CONST"):
+                raise Unsupported(f"name of the abstract opcode {self.op}")
+            return self.op
+        if name == "info":
+            if self.proto is None and self.op == "CONST":
+                # the opcode ConstantOpcode.new picks depends on the value: its protocol is a case assumption; the
+                # driver re-runs the case under the other assumption when it was consulted
+                Tok.const_proto_read = True
+                return Record("OpcodeInfo", {"proto": Tok.const_proto_assumed, "name": "<constant>"})
+            if self.proto is None:
+                raise Unsupported(f"protocol of the abstract opcode {self.op}")
+            return Record("OpcodeInfo", {"proto": self.proto, "name": self.op})
+        raise Unsupported(f"attribute .{name} of an opcode")
 
     def __repr__(self):
         return self.op if self.arg is None else f"{self.op}({self.arg!r})"
 
 
 class MemoLen:
-    """`len(interpreter.memory)` after a symbolic run of the list as it was at `snapshot`."""
+    """`len(interpreter.memory)` after a symbolic run of the list as it was at `snapshot`.  Symbolic as a memo key;
+    comparisons with integers (opcode-width selection) use the case's assumed magnitude."""
+
+    magnitude = 3  # set per case by the driver
 
     def __init__(self, snapshot: Tuple[str, ...]):
         self.snapshot = snapshot
+        self.magnitude = MemoLen.magnitude
+
+    def _cmp(self, other, op):
+        if isinstance(other, bool) or not isinstance(other, int):
+            return NotImplemented
+        return op(self.magnitude, other)
+
+    def __lt__(self, o):
+        return self._cmp(o, lambda a, b: a < b)
+
+    def __le__(self, o):
+        return self._cmp(o, lambda a, b: a <= b)
+
+    def __gt__(self, o):
+        return self._cmp(o, lambda a, b: a > b)
+
+    def __ge__(self, o):
+        return self._cmp(o, lambda a, b: a >= b)
+
+    __hash__ = object.__hash__
 
     def __repr__(self):
         return "len(memo after base)"
@@ -61,7 +110,7 @@ class Harness:
 
     # ---- abstract Pickled object
     def new_self(self, tokens: List[Tok]) -> Record:
-        rec = Record("Pickled", {"tokens": tokens})
+        rec = Record("Pickled", {"tokens": tokens, "_opcodes": tokens})
         rec.fields["__getitem__"] = lambda i: self._getitem(tokens, i)
         rec.fields["__len__"] = lambda: len(tokens)
         rec.fields["__iter__"] = lambda: list(tokens)
@@ -153,6 +202,9 @@ class Harness:
                 if cname in ("Get", "Put", "BinGet", "BinPut", "LongBinGet", "LongBinPut"):
                     return Tok(h.opname[cname], args[0] if args else None, cname)
                 return Tok(h.opname[cname], args[0] if args else None, cname)
+            if last == "validate" and len(parts) == 2 and parts[0] in h.opname and len(args) == 1:
+                # validate returns the value to store (or refuses); which values it refuses is C15's subject
+                return args[0]
             if last == "new" and len(parts) == 2 and (parts[0] == "ConstantOpcode" or parts[0] in h.const_classes):
                 v = args[0]
                 if isinstance(v, (list, dict, tuple, set)) or v is None:
@@ -283,8 +335,8 @@ def _intkey(a):
 
 
 # ------------------------------------------------------------------ the check
-def base_tokens(header=("PROTO", "FRAME")) -> List[Tok]:
-    return [Tok(hh, 4, hh.title()) for hh in header] + [Tok("BODY"), Tok("STOP", None, "Stop")]
+def base_tokens(header=("PROTO", "FRAME"), body_proto: int = 4) -> List[Tok]:
+    return [Tok(hh, 4, hh.title()) for hh in header] + [Tok("BODY", proto=body_proto), Tok("STOP", None, "Stop")]
 
 
 def _value_of(v):
@@ -352,16 +404,27 @@ def run(rep: Report, tier: str):
             cases.append(("insert_function_call_on_unpickled_object", f"compile_code={cc},constant_args={ca}", ["def injected_fn(obj): return obj"], dict(constant_args=ca, compile_code=cc), "function"))
 
     n_eval = 0
-    cases = [(hp, lb, a, k, m, hd) for (hp, lb, a, k, m) in cases for hd in HEADERS]
-    for helper, label0, args, kw, mode, header in cases:
-        label = f"{label0},header={'+'.join(header) or 'none'}"
+    # the base's own protocol (what a helper may look at to choose opcodes) and the size of its memo (what selects the
+    # width of a GET) are further finite case dimensions
+    WORLDS = [(hd, 4, 3) for hd in HEADERS] + [((), 0, 3), (("PROTO", "FRAME"), 4, 300)]
+    if tier == "thorough":
+        WORLDS += [((), 0, 300), (("PROTO", "FRAME"), 4, 70000), ((), 4, 70000), (("PROTO",), 2, 300)]
+    cases = [(hp, lb, a, k, m, hd, bp, mg, 1) for (hp, lb, a, k, m) in cases for (hd, bp, mg) in WORLDS]
+    ci = 0
+    while ci < len(cases):
+        helper, label0, args, kw, mode, header, body_proto, memo_mag, const_proto = cases[ci]
+        ci += 1
+        label = f"{label0},header={'+'.join(header) or 'none'}" + (f",base-protocol={body_proto}" if body_proto != 4 else "") + (f",memo-size~{memo_mag}" if memo_mag != 3 else "") + (f",constant-opcode-protocol={const_proto}" if const_proto != 1 else "")
+        MemoLen.magnitude = memo_mag
+        Tok.const_proto_assumed = const_proto
+        Tok.const_proto_read = False
         args = [len(header) + 1 if a == "before-stop" else a for a in args] if helper == "insert_magic_int" else args
         f = repo.find_method(h.pk, helper) or (repo.find_method(h.pk, dotted(h.pk.attrs[helper])) if helper in h.pk.attrs else None)
         if f is None:
             raise AnalysisError(f"Pickled.{helper} not found")
         q = f"{P}.{helper}"
         where = f"{f.file}:{f.line}"
-        toks = base_tokens(header)
+        toks = base_tokens(header, body_proto)
         me = h.new_self(toks)
         try:
             ret = h.call_method(me, helper, list(args), dict(kw))
@@ -370,6 +433,9 @@ def run(rep: Report, tier: str):
             continue
         except Unsupported as e:
             raise AnalysisError(f"{q} [{label}]: cannot interpret the helper over the abstract opcode list: {e}")
+        finally:
+            if Tok.const_proto_read and const_proto == 1:
+                cases.append((helper, label0, args, kw, mode, header, body_proto, memo_mag, 0))
         n_eval += 1
         seq = " ".join(repr(t) for t in toks)
         # ---- stop-last
@@ -447,7 +513,7 @@ def run(rep: Report, tier: str):
     rep.extra["template_cases_evaluated"] = n_eval
     # ---- helpers refuse a list that does not end in STOP
     for helper in ("insert_python", "append_python", "insert_function_call_on_unpickled_object"):
-        toks = [Tok("PROTO", 4, "Proto"), Tok("BODY")]
+        toks = [Tok("PROTO", 4, "Proto"), Tok("BODY", proto=4)]
         me = h.new_self(toks)
         f = repo.find_method(h.pk, helper)
         try:
@@ -463,7 +529,7 @@ def run(rep: Report, tier: str):
     # ---- prefix position for different headers
     ip = repo.find_method(h.pk, "insert_python")
     for hdr in ([], ["PROTO"], ["PROTO", "FRAME"], ["FRAME"]):
-        toks = [Tok(x, 1, x.title()) for x in hdr] + [Tok("BODY"), Tok("STOP", None, "Stop")]
+        toks = [Tok(x, 1, x.title()) for x in hdr] + [Tok("BODY", proto=4), Tok("STOP", None, "Stop")]
         me = h.new_self(toks)
         try:
             h.call_method(me, "insert_python", ["CODE"], dict(run_first=True, use_output_as_unpickle_result=False))
